@@ -115,6 +115,16 @@ func classes(sc *scen.Scenario, res *scen.Result, intended scen.Corner) []string
 		cls = append(cls, "draws:client-own")
 	}
 	cls = append(cls, fmt.Sprintf("g=%d", sc.HS.G))
+	switch nb, na := len(sc.HS.ExtraFP), len(sc.HS.ExtraFPAfter); {
+	case nb == 0 && na == 0:
+		cls = append(cls, "fingerprints:only-the-known-key")
+	case nb == 0:
+		cls = append(cls, "fingerprints:known-key-first")
+	case na == 0:
+		cls = append(cls, "fingerprints:known-key-last")
+	default:
+		cls = append(cls, "fingerprints:known-key-in-the-middle")
+	}
 	switch {
 	case sc.HS.Q < 1<<16:
 		cls = append(cls, "pq:small")
